@@ -1,4 +1,5 @@
 import SqlModel.Bookkeeping
+import SqlProofs.IdentShape.Contexts
 import SqlProofs.LeadingKeyword
 import SqlModel
 import SqlProofs.SplitValue
@@ -149,6 +150,19 @@ def cmdDelimSafe (s : Array Nat) : String :=
       s!"{if safe then 1 else 0}:{shape}")
 -- <<< delimsafe command -----------------------------------------------------------------------
 
+/-- `skelcheck`: evaluate the C12 skeleton table (19 contexts × 30 reference forms) with the compiled model:
+`ok <number of skeletons whose check is true> <number of skeletons> <hex texts of failing skeletons …>` -/
+def cmdSkelCheck : String :=
+  let sks := Sql.Acc.contexts.flatMap Sql.Acc.skelsOf
+  let bad := sks.filter (fun sk => !Sql.Acc.skelCheck sk)
+  s!"ok {sks.length - bad.length} {sks.length}" ++ String.join (bad.map fun sk => " " ++ ",".intercalate (sk.text.map hexOf))
+
+/-- `skeltexts`: the statement texts of the table, one comma-joined hex text per skeleton (for the oracle on the real code) -/
+def cmdSkelTexts : String :=
+  "ok " ++ " ".intercalate ((Sql.Acc.contexts.flatMap Sql.Acc.skelsOf).map fun sk =>
+    ",".intercalate (sk.text.map hexOf) ++ "|" ++ (match sk.qual with | none => "-" | some q => ",".intercalate (q.map hexOf)) ++ "|" ++
+    ",".intercalate (sk.name.map hexOf) ++ "|" ++ (match sk.alias with | none => "-" | some a => ",".intercalate (a.map hexOf)))
+
 -- >>> bookkeeping (heap) command ---------------------------------------------------------------
 /-- `heap <leaf> … # <op> …`: leaf = comma-joined hex code points (`-` = empty); op = `self:Class:start:stop:includeEnd:extend`.
 Answers `ok <result> … | <object> …` with result = id of `grp` or the exception name, object = `id:parent:kids:Class:value`. -/
@@ -192,6 +206,8 @@ def handle (line : String) : String :=
   | "parse" :: rest => cmdParse rest
   | "group" :: rest => cmdGroup rest
   | "heap" :: rest => cmdHeap rest
+  | "skelcheck" :: _ => cmdSkelCheck
+  | "skeltexts" :: _ => cmdSkelTexts
   | "leadhyp" :: rest => cmdLeadHyp (parseText rest)
   | "delimsafe" :: rest => cmdDelimSafe (parseText rest)
   | "acc" :: rest => Sql.Driver.cmdAcc rest   -- accessors (SqlModel/AccDriver.lean), stream S-ACC
